@@ -981,6 +981,43 @@ func (h *c03Harness) step(ev string) {
 		fa := strings.Split(ab[0], ":")
 		fb := strings.Split(ab[1], ":")
 		h.raced(idx(fa[0]), fa[1], fa[2], idx(fb[1]), fb[2])
+	case "g", "y": // g:<i>:<kind>:<proto>:<frame> / y:<i>:<kind> — a session frame / a PADT that carries slot i's PPPoE
+		// session id but comes from another subscriber: identity differing in exactly one component (c = C-VLAN,
+		// s = S-VLAN, m0..m5 = that MAC byte).  RFC 2516: not this session's peer - it must change nothing.
+		i := idx(f[1])
+		s := h.sess[i]
+		if s == nil {
+			return
+		}
+		mac := append(net.HardwareAddr(nil), h.macs[i]...)
+		var sv, cv uint16 = 100, 0
+		switch {
+		case f[2] == "c":
+			cv = 777
+		case f[2] == "s":
+			sv = 101
+		default:
+			mac[int(f[2][1]-'0')] ^= 0x40
+		}
+		h.curSlot = i
+		if f[0] == "y" {
+			_ = h.c.handlePacket(&dataplane.ParsedPacket{
+				Protocol: models.ProtocolPPPoEDiscovery, MAC: mac, OuterVLAN: sv, InnerVLAN: cv, SwIfIndex: 10,
+				PPPoE: &layers.PPPoE{Version: 1, Type: 1, Code: layers.PPPoECodePADT, SessionId: s.PPPoESessionID},
+			})
+			return
+		}
+		pnum, payload, ok := h.frame(i, f[3], f[4])
+		if !ok {
+			h.emit(strconv.Itoa(i), "badframe:"+f[3]+":"+f[4])
+			return
+		}
+		_ = h.c.handlePacket(&dataplane.ParsedPacket{
+			Protocol: models.ProtocolPPPoESession, MAC: mac, OuterVLAN: sv, InnerVLAN: cv, SwIfIndex: 10,
+			PPPoE: &layers.PPPoE{Version: 1, Type: 1, Code: layers.PPPoECodeSession, SessionId: s.PPPoESessionID},
+			PPP:   &layers.PPP{PPPType: layers.PPPType(pnum), BaseLayer: layers.BaseLayer{Payload: payload}},
+		})
+		h.waitWorkers()
 	case "S": // S:<event>&a:<k>:<akind>
 		ab := strings.SplitN(ev[2:], "&", 2)
 		fb := strings.Split(ab[1], ":")
